@@ -109,6 +109,9 @@ def run_child(binary, test, env, timeout_s, tag, extra_args=None, cwd=None):
             os.remove(f)
     e = goenv(env)
     e["VERIF_OUT"] = out
+    tmpd = os.path.join(sc, "tmp")
+    os.makedirs(tmpd, exist_ok=True)
+    e["TMPDIR"] = tmpd
     e["VERIF_PROGRESS"] = prog
     cmd = ["timeout", "-s", "QUIT", "-k", "20", str(int(timeout_s)), binary, "-test.run", "^%s$" % test, "-test.count=1", "-test.timeout=0"]
     if extra_args:
